@@ -254,8 +254,20 @@ theorem inv_headerStep (env : Env L) (s s1 : Node L) (b : Block) (r : Option Err
     exact hsr h1 (by omega)
   · exact hinv
 
+/-- a spoiled ledger still reports the old local state root, so the invariant survives -/
+theorem inv_spoil (env : Env L) (hroot : ∀ l b, env.rootOf (env.spoil l b) = env.rootOf l)
+    (s : Node L) (b : Block) (hinv : Inv env s) : Inv env { s with ledger := env.spoil s.ledger b } := by
+  constructor
+  · exact hinv.bh_lt
+  · exact hinv.indexed
+  · exact hinv.linked
+  · intro hsr nh hnh
+    show nh.prevStateRoot = env.rootOf (env.spoil s.ledger b)
+    rw [hroot]; exact hinv.nextRoot hsr nh hnh
+
 /-- C06, invariant: every AddBlock call (accepted or rejected) keeps the header-chain invariant. -/
-theorem inv_addBlock_aux (env : Env L) (s s' : Node L) (b : Block) (r : Option Err)
+theorem inv_addBlock_aux (env : Env L) (hroot : ∀ l b, env.rootOf (env.spoil l b) = env.rootOf l)
+    (s s' : Node L) (b : Block) (r : Option Err)
     (hskip : s.cfg.skip = false) (hinv : Inv env s) (hbind : HashBinds s b)
     (h : addBlock env s b = (s', r)) : Inv env s' := by
   have hne := hinv.ne
@@ -269,8 +281,9 @@ theorem inv_addBlock_aux (env : Env L) (s s' : Node L) (b : Block) (r : Option E
   subst hr1
   cases r with
   | some e =>
-    have := bodyStep_err env s1 s' b e hbody
-    rw [this]; exact hinv1
+    rcases bodyStep_err env s1 s' b e hbody with rfl | ⟨_, _, rfl⟩
+    · exact hinv1
+    · exact inv_spoil env hroot s1 b hinv1
   | none =>
     -- the recorded header at the block's index has the block's hash and hashable fields
     have hkh : ∃ kh, s1.headers[b.hdr.index]? = some kh ∧ kh.hash = b.hdr.hash ∧ SameCore kh b.hdr ∧
